@@ -281,12 +281,13 @@ static void op_lse(void) {
 }
 
 /* ---- rectangular full-column-rank inputs ------------------------------------------------------------ */
-static const double KAP_LS[5] = {1, 1e1, 1e2, 1e3, 1e4};
+static const double KAP_LS[4] = {1, 1e1, 1e2, 1e3};   /* beyond 1e3 the kappa^2 allowance of the normal equations is no longer comfortably above a correct
+                                                          * Gauss-Jordan inverse of X'X (measured 0.2 of the allowance at 1e4), so the alphabet stops here */
 static const double S1S[3] = {1, 1e2, 1e-2};
 
 /* ---- op: OrdinaryLeastSquares ------------------------------------------------------------------------ */
 static void op_ols(void) {
-  int n = 1 + vx_choose("n-1", 6), m = n + vx_choose("m-n", NMAX - n + 1), ki = vx_choose("kappa", 5), si = vx_choose("s1", 3), fam = vx_choose("fam", vx_thorough() ? 4 : 2), yk = vx_choose("ykind", 2);
+  int n = 1 + vx_choose("n-1", 6), m = n + vx_choose("m-n", NMAX - n + 1), ki = vx_choose("kappa", 4), si = vx_choose("s1", 3), fam = vx_choose("fam", vx_thorough() ? 4 : 2), yk = vx_choose("ykind", 2);
   vx_require(n > 1 || ki == 0);
   double kap = KAP_LS[ki], s1 = S1S[si], X[NMAX * NMAX], y[NMAX];
   vg_spectral(fam * 8 + ki + 300, m, n, s1, n > 1 ? pow(kap, -1.0 / (n - 1)) : 1.0, X);
@@ -518,8 +519,8 @@ static void body(void) {
 int main(int argc, char **argv) {
   vg_seed(getenv("VERIF_SEED") ? atol(getenv("VERIF_SEED")) : 0);
   vx_describe("alphabet", "square: EVERY {-1,0,1} matrix of order 2 (81) and 3 (19683) with det != 0, EVERY permutation matrix of order <= 6 (thorough: 7), indexed order 1..12 x {upper/lower triangular, SPD, diagonal, cyclic shift + 1e-9 perturbation, anti-diagonal dominant, U diag(s) V' with kappa 1,1e2,1e4,1e6}, each at scale 1 and 2^-17; "
-              "rectangular: all (m,n) in 1..12^2 (m>=n, kappa 1..1e4, s1 in {1,1e2,1e-2} for least squares and pseudo-inverse; every shape, kappa 1..1e6 and rank-deficient for SVD; every {-1,0,1} matrix 2x2, 3x3, 1x2..3x2); symmetric: every {-1,0,1} symmetric matrix of order 2,3 and 8 spectrum kinds of order 1..12");
-  vx_describe("oracle", "M*Minv=I (tol 1e3 eps n kappa); det = product of pivots of the reference LU (tol 64 eps (n+1) perm|A|), exact on integer scopes, det(AB)=det(A)det(B) for 8 fixed B; |Mx-b| <= 1e3 eps n (|M||x|+|b|); X'(y-Xb)=0 and the four Penrose conditions (tol ~ kappa^2); A v = lambda v with |v|=1 and the full spectrum (Jacobi); SVDlapack: factors chain, U S VT = A, S diagonal >= 0 equal to the reference singular values");
+              "rectangular: all (m,n) in 1..12^2 (m>=n, kappa 1..1e3, s1 in {1,1e2,1e-2} for least squares and pseudo-inverse; every shape, kappa 1..1e6 and rank-deficient for SVD; every {-1,0,1} matrix 2x2, 3x3, 1x2..3x2); symmetric: every {-1,0,1} symmetric matrix of order 2,3 and 8 spectrum kinds of order 1..12");
+  vx_describe("oracle", "|Minv - M^-1| <= 1e3 eps n kappa |M^-1| against the reference inverse, and M*Minv=I to what follows from it; det = product of pivots of the reference LU (tol 64 eps (n+1) perm|A|), exact on integer scopes, det(AB)=det(A)det(B) for 8 fixed B; |Mx-b| <= 1e3 eps n (|M||x|+|b|); X'(y-Xb)=0 and the four Penrose conditions (tol ~ kappa^2); A v = lambda v with |v|=1 and the full spectrum (Jacobi); SVDlapack: factors chain, U S VT = A, S diagonal >= 0 equal to the reference singular values");
   vx_set_shard_depth(4);
   vx_expect_outcomes(20000);
   return vx_main(argc, argv, "C12", body);
